@@ -754,6 +754,41 @@ func exploreBare(c *vx.Ctx, props string, maxDev int, bfsDepth int, st *exploreS
 		}
 	}
 	c.Extra["bare_sm_batched_input_executions"] = nBatch
+	// A lagging state machine: the scripted event and every set of up to 3 further votes of the round (any honest
+	// validator's or the Byzantine validator's prevote or precommit, for the block or nil) reach the view before the
+	// state machine reads it again, so that it sees ONE coalesced view (a prevote quorum together with split
+	// precommits, a commit together with the votes before it, ...). Votes coalesce into one view: sets, not sequences.
+	burst := []string{"V:p:oh:A", "V:p:oh:nil", "V:p:3:nil", "V:c:o1:A", "V:c:o1:nil", "V:c:o2:A", "V:c:o2:nil", "V:c:3:A", "V:c:3:nil", "V:c:oh:A", "V:c:oh:nil"}
+	nBurst := 0
+	lastPos := len(script)
+	if maxDev < 2 {
+		lastPos = 17 // quick: the first height and the nil round of the second
+	}
+	for pos := 0; pos < lastPos; pos++ {
+		for i := 0; i < len(burst); i++ {
+			for j := i; j < len(burst); j++ {
+				for k := j; k < len(burst); k++ {
+					devs := []string{"", fmt.Sprintf("%d:+%s", pos+1, burst[i])}
+					n := 2
+					if j > i {
+						devs = append(devs, fmt.Sprintf("%d:+%s", pos+1, burst[j]))
+						n++
+					}
+					if k > j {
+						if j == i {
+							continue // {i,i,k}: the same set as {i,k}
+						}
+						devs = append(devs, fmt.Sprintf("%d:+%s", pos+1, burst[k]))
+						n++
+					}
+					devs[0] = fmt.Sprintf("%d:+BATCH:%d:1", pos, n)
+					jobs = append(jobs, job(devs...))
+					nBurst++
+				}
+			}
+		}
+	}
+	c.Extra["bare_sm_coalesced_vote_burst_executions"] = nBurst
 	for pos, ev := range script {
 		if ev != "SR" || pos == 0 || script[pos-1] != "ENT" {
 			continue
